@@ -25,6 +25,7 @@ inductive Blk where
   | scope (v : String) (body : List Blk)           -- `let g = v.set_local_parent(); body; drop(g)`
   | localSpan (n : String) (body : List Blk)       -- `let s = LocalSpan::enter…(n); body; drop(s)`
   | collector (body : List Blk) (fin : Option String)  -- `LocalCollector::start(); body; drop / collect()`
+  | adCall (a call result : String) (body : List Blk)  -- one method call on an adapter; `body` = what the inner does
 
 mutual
 def Blk.flat (t : Nat) : Blk → Program
@@ -33,6 +34,7 @@ def Blk.flat (t : Nat) : Blk → Program
   | .localSpan n body => (t, .localEnter n) :: (Blk.flatList t body ++ [(t, .close)])
   | .collector body fin =>
     (t, .collectorStart) :: (Blk.flatList t body ++ [(t, match fin with | none => Op.close | some x => Op.collect x)])
+  | .adCall a call result body => (t, .adPoll a call) :: (Blk.flatList t body ++ [(t, .adEnd a result)])
 def Blk.flatList (t : Nat) : List Blk → Program
   | [] => []
   | b :: bs => Blk.flat t b ++ Blk.flatList t bs
@@ -45,6 +47,7 @@ def Blk.ok (t : Nat) : Blk → Bool
   | .scope _ body => Blk.okList t body
   | .localSpan _ body => Blk.okList t body
   | .collector body _ => Blk.okList t body
+  | .adCall _ _ _ body => Blk.okList t body
 def Blk.okList (t : Nat) : List Blk → Bool
   | [] => true
   | b :: bs => Blk.ok t b && Blk.okList t bs
@@ -229,6 +232,100 @@ theorem C10_frame (t : Nat) : ∀ (b : Blk) (s : Sys), b.ok t = true →
         refine pres_of_loc_eq _ _ hc rfl hls ?_ ?_
         · have := ih.2.2.1; rw [h1] at this; exact this
         · have := ih.2.2.2; rw [h1] at this; exact this
+  | .adCall a call result body, s, hok, hobs, hg => by
+    simp only [Blk.flat, runS_cons, runO_cons, List.all_cons, Bool.and_eq_true] at hobs ⊢
+    simp only [Blk.ok] at hok
+    obtain ⟨ho1, hrest⟩ := hobs
+    rw [runO_append] at hrest
+    obtain ⟨hob, hlast⟩ := all_append_isOk _ _ hrest
+    rw [runS_append]
+    simp only [exec] at ho1
+    have hopen := adPoll_open s t a call ho1
+    have hs1e : (exec s t (.adPoll a call)).1 = (s.adPoll t a call).1 := by simp only [exec]
+    rw [hs1e] at hob hlast ⊢
+    generalize (s.adPoll t a call).1 = s1 at *
+    simp only at hopen
+    have hend : ∀ s2 : Sys, (runO s2 [(t, Op.adEnd a result)]).all Obs.isOk = true → (s2.adEnd t a result).2.isOk = true := by
+      intro s2 h
+      simpa [runO_cons, exec] using h
+    have hrun : ∀ s2 : Sys, (runS s2 [(t, Op.adEnd a result)]) = (s2.adEnd t a result).1 := by
+      intro s2; simp only [runS_cons, runS_nil, exec]
+    rcases hopen with h1 | ⟨tok, h1⟩ | h1 | ⟨l, ls, l1, h, c1, n, hl, hst, hl1, hc1, hgd1, hp1⟩
+    · have hg1 : Good (s1.th t) := by rw [h1]; exact hg
+      have ih := C10_frameList t body s1 hok hob hg1
+      generalize runS s1 (Blk.flatList t body) = s2 at *
+      obtain ⟨g, gs, hgg, hloc⟩ := adEnd_loc s2 t a result (hend s2 hlast)
+      have hg2 : (s2.th t).guards = .scope none :: (s.th t).guards := by rw [ih.1, h1]
+      rw [hg2] at hgg
+      obtain ⟨rfl, rfl⟩ := List.cons.inj hgg
+      rw [closeGuard_noop _ _ _ (Or.inl rfl), Sys.th_setTh_same] at hloc
+      rw [hrun]
+      refine pres_of_loc_eq (s2.th t).stack _ hloc rfl ?_ ?_ ?_
+      · have := ih.2.1; rw [h1] at this; exact this
+      · have := ih.2.2.1; rw [h1] at this; exact this
+      · have := ih.2.2.2; rw [h1] at this; exact this
+    · have hg1 : Good (s1.th t) := by
+        rw [h1]
+        refine ⟨hg.1, ?_⟩
+        intro x hx
+        simp only [List.mem_cons] at hx
+        rcases hx with rfl | hx
+        · simp [SpanLine.new, SpanQueue.withCapacity]
+        · exact hg.2 x hx
+      have ih := C10_frameList t body s1 hok hob hg1
+      generalize runS s1 (Blk.flatList t body) = s2 at *
+      obtain ⟨g, gs, hgg, hloc⟩ := adEnd_loc s2 t a result (hend s2 hlast)
+      have hg2 : (s2.th t).guards = .scope (some (s.th t).stack.nextEpoch) :: (s.th t).guards := by rw [ih.1, h1]
+      rw [hg2] at hgg
+      obtain ⟨rfl, rfl⟩ := List.cons.inj hgg
+      have hl2 := ih.2.1
+      rw [h1] at hl2
+      obtain ⟨l2, ls2, hl2e, _, hls⟩ := linesExt_cons_left hl2
+      rw [closeGuard_pops _ t _ _ (Or.inl rfl) l2 ls2 (by rw [Sys.th_setTh_same]; exact hl2e), Sys.th_setTh_same] at hloc
+      rw [hrun]
+      refine pres_of_loc_eq _ _ hloc rfl hls ?_ ?_
+      · have := ih.2.2.1; rw [h1] at this; exact this
+      · have := ih.2.2.2; rw [h1] at this; exact this
+    · have hg1 : Good (s1.th t) := by rw [h1]; exact hg
+      have ih := C10_frameList t body s1 hok hob hg1
+      generalize runS s1 (Blk.flatList t body) = s2 at *
+      obtain ⟨g, gs, hgg, hloc⟩ := adEnd_loc s2 t a result (hend s2 hlast)
+      have hg2 : (s2.th t).guards = .localSpan none :: (s.th t).guards := by rw [ih.1, h1]
+      rw [hg2] at hgg
+      obtain ⟨rfl, rfl⟩ := List.cons.inj hgg
+      rw [closeGuard_noop _ _ _ (Or.inr (Or.inl rfl)), Sys.th_setTh_same] at hloc
+      rw [hrun]
+      refine pres_of_loc_eq (s2.th t).stack _ hloc rfl ?_ ?_ ?_
+      · have := ih.2.1; rw [h1] at this; exact this
+      · have := ih.2.2.1; rw [h1] at this; exact this
+      · have := ih.2.2.2; rw [h1] at this; exact this
+    · have hpref : 1 ≤ (s.ctr t).pref := hg.1
+      have hz : l.queue.nextParent ≠ some 0 := hg.2 l (by rw [hl]; simp)
+      obtain ⟨e1, e2, e3, e4, e5, e6, e7, e8⟩ := SpanLine.enter_exit_ext l (s.ctr t) n l1 h c1 hst hpref hz
+      have hg1 : Good (s1.th t) := by
+        refine ⟨hp1 ▸ hg.1, ?_⟩
+        rw [hl1]
+        intro x hx
+        simp only [List.mem_cons] at hx
+        rcases hx with rfl | hx
+        · rw [e6]; intro e; exact e7 (Option.some.inj e)
+        · exact hg.2 x (by rw [hl]; simp [hx])
+      have ih := C10_frameList t body s1 hok hob hg1
+      generalize runS s1 (Blk.flatList t body) = s2 at *
+      obtain ⟨g, gs, hgg, hloc⟩ := adEnd_loc s2 t a result (hend s2 hlast)
+      have hg2 : (s2.th t).guards = .localSpan (some h) :: (s.th t).guards := by rw [ih.1, hgd1]
+      rw [hg2] at hgg
+      obtain ⟨rfl, rfl⟩ := List.cons.inj hgg
+      have hl2 := ih.2.1
+      rw [hl1] at hl2
+      obtain ⟨l2, ls2, hl2e, hle, hls⟩ := linesExt_cons_left hl2
+      rw [closeGuard_local _ t h l2 ls2 (by rw [Sys.th_setTh_same]; exact hl2e), Sys.th_setTh_same] at hloc
+      rw [hrun]
+      refine pres_of_loc_eq _ _ hloc rfl ?_ ?_ ?_
+      · rw [hl]
+        exact ⟨SpanLine.finish_after_ext l l1 l2 (s.ctr t) c1 _ n h hst hpref hz hle, hls⟩
+      · exact ih.2.2.1.trans hc1
+      · exact ih.2.2.2.trans hp1
 theorem C10_frameList (t : Nat) : ∀ (bs : List Blk) (s : Sys), Blk.okList t bs = true →
     (runO s (Blk.flatList t bs)).all Obs.isOk = true → Good (s.th t) →
     Pres (s.th t) ((runS s (Blk.flatList t bs)).th t)
@@ -291,6 +388,6 @@ theorem C10_good_initially (t : Nat) : Good (Sys.init.th t) := by
 
 /-! non-vacuity: a nested program satisfying `ok`, run from a state with a reporter -/
 example : (Blk.scope "r" [.localSpan "a" [.op 0 (.lAddEvent "e" none), .scope "r" [.op 1 .close]],
-    .collector [.localSpan "b" []] (some "x")]).ok 0 = true := by decide
+    .collector [.localSpan "b" []] (some "x"), .adCall "f" "poll" "pending" [.localSpan "c" []]]).ok 0 = true := by decide
 
 end Fastrace
